@@ -149,8 +149,14 @@ typedef struct {
     unsigned char *slotaddr;
 } rt_t;
 static rt_t  RT[MAXT];
-static void *dord[512]; static int ndord = 0;
-static int desc_ordinal(void *p) { for (int i = 0; i < ndord; i++) if (dord[i] == p) return i; dord[ndord] = p; return ndord++; }
+#define MAXD (1 << 16)
+static void *dord[MAXD]; static int ndord = 0;
+static int desc_ordinal(void *p)
+{
+    for (int i = 0; i < ndord; i++) if (dord[i] == p) return i;
+    if (ndord >= MAXD) return -1;
+    dord[ndord] = p; return ndord++;
+}
 static inline unsigned char pat(unsigned long seed, size_t i) { return (unsigned char)((seed * 131u + i * 7u + (i >> 8)) & 0xff); }
 static unsigned char argbyte(int slot, size_t i) { return i < 4 ? (unsigned char)((slot >> (8 * i)) & 0xff) : pat(7000 + slot, i); }
 
@@ -236,7 +242,7 @@ static void run_script(char *p)
         if (op == 'f') {
             aligned_t v = 0; qthread_readFF(&v, &r->ret);
             void *d = r->self; int freed = 0;
-            for (int spin = 0; spin < 5000 && !freed; spin++) {      /* 1x1: already released when the main task runs again */
+            for (int spin = 0; spin < 60000 && !freed; spin++) {     /* 1x1: already released when the main task runs again */
                 wl(); for (int i = 0; i < ndfreed; i++) if (dfreed[i] == d) { freed++; dfreed[i] = NULL; } wu();
                 if (!freed) usleep(1000);
             }
